@@ -149,6 +149,38 @@ def engine_files():
     return [os.path.join(d, n) for n in sorted(os.listdir(d)) if os.path.isfile(os.path.join(d, n))]
 
 
+def build_shared_object(src, variant, deps):
+    """One translation unit shared by several harnesses (the zoo), cached per (variant, repo, sources)."""
+    cxx, vflags = VARIANTS[variant]
+    vflags = [f if f != "-O2" else "-O1" for f in vflags]
+    flags = COMMON + vflags
+    path = os.path.join(VERIF, src)
+    allf = [path] + [os.path.join(VERIF, d) for d in deps] + engine_files() + repo_files()
+    h = _hash_files(allf, REPO + " ".join(flags))
+    tag = os.path.basename(src).replace(".", "_")
+    d = os.path.join(BUILD, "o-%s-%s-%s" % (tag, variant, h))
+    obj = os.path.join(d, tag + ".o")
+    with Lock("o-%s-%s" % (tag, variant)):
+        if os.path.exists(obj):
+            os.utime(d, None)
+            return obj
+        t0 = time.time()
+        tmp = d + ".tmp%d" % os.getpid()
+        shutil.rmtree(tmp, ignore_errors=True)
+        os.makedirs(tmp)
+        inc = ["-I", os.path.join(REPO, "include"), "-I", os.path.join(VERIF, "engine"), "-I", VERIF, "-I", os.path.join(REPO, "src")]
+        try:
+            _run_all([[cxx] + flags + inc + ["-c", path, "-o", os.path.join(tmp, tag + ".o")]], "shared object %s" % src)
+        except Exception:
+            shutil.rmtree(tmp, ignore_errors=True)
+            raise
+        shutil.rmtree(d, ignore_errors=True)
+        os.rename(tmp, d)
+        _prune("o-%s-%s-" % (tag, variant), 6)
+        log("[build] %s (%s) %.1fs" % (src, variant, time.time() - t0))
+        return obj
+
+
 def build_harness(name, spec):
     """spec: dict(src=[...], variant=..., flags=[...], lib=bool, units=[[...]...])"""
     variant = spec.get("variant", "fast")
@@ -160,6 +192,7 @@ def build_harness(name, spec):
     d = os.path.join(BUILD, "h-%s-%s-%s" % (name, variant, h))
     exe = os.path.join(d, name)
     lib = build_lib(variant) if spec.get("lib", True) else None
+    shared = [build_shared_object(x, variant, spec.get("deps", [])) for x in spec.get("shared", [])]
     with Lock("h-%s-%s" % (name, variant)):
         if os.path.exists(exe):
             os.utime(d, None)
@@ -187,7 +220,7 @@ def build_harness(name, spec):
                 cmds.append([c] + flags + per + inc + ["-c", s, "-o", o])
         try:
             _run_all(cmds, "harness build (%s)" % name)
-            link = [cxx] + flags + objs + ([lib] if lib else []) + ["-o", os.path.join(tmp, name)] + spec.get("ldflags", [])
+            link = [cxx] + flags + objs + shared + ([lib] if lib else []) + ["-o", os.path.join(tmp, name)] + spec.get("ldflags", [])
             _run_all([link], "harness link (%s)" % name)
         except Exception:
             shutil.rmtree(tmp, ignore_errors=True)
